@@ -1,6 +1,7 @@
 (* ONE fragment with loops AND functions (DESIGN 3, "FragProg"): the statement layers of model/FragLoop.v (`while` with `else`, `break`,
    `continue`, test and body guards) and of model/FragFun.v (module-level `def`, `return`, calls of named functions as right-hand
-   sides, function guards) merged, so that loops run inside functions, functions are called from loops, `return` leaves a loop through
+   sides, function guards) merged, plus `for x in range(...)` loops (the builtin `range` is the one builtin callee; a for loop has a body
+   guard and no test guard; its iterable is bracketed by before_for_iter / after_for_iter), so that loops run inside functions, functions are called from loops, `return` leaves a loop through
    the `try / finally` of an instrumented iteration, recursion goes through loops.  Expressions and right-hand sides (`texpr`, `rhs`, their
    rewriters `ie` / `ir`, evaluators `eval_e` / `eval_r`, references `ref_e` / `ref_r`, scoping) are those of FragSem.v / FragFun.v.
    What is new with respect to the two separate fragments is their interplay in the rewriter:
@@ -16,9 +17,9 @@ Import ListNotations.
 From PyccoloV Require Import gen.PyAst gen.Ids gen.Events model.Tree model.Erase model.RwFrag model.FragSem model.FragFun.
 Local Open Scope N_scope.
 
-Inductive guard : Set := GTest (n : N) | GBody (n : N) | GFun (n : N).
-Definition guard_id (g : guard) : N := match g with GTest n => 5000000 + 2 * n | GBody n | GFun n => 5000000 + 2 * n + 1 end.
-Definition guard_node (g : guard) : N := match g with GTest n | GBody n | GFun n => n end.
+Inductive guard : Set := GTest (n : N) | GBody (n : N) | GFun (n : N) | GFBody (n : N).      (* while test, while body, function body, for body *)
+Definition guard_id (g : guard) : N := match g with GTest n => 5000000 + 2 * n | GBody n | GFun n | GFBody n => 5000000 + 2 * n + 1 end.
+Definition guard_node (g : guard) : N := match g with GTest n | GBody n | GFun n | GFBody n => n end.
 
 Inductive pstmt : Set :=
   | PExpr (n : N) (r : rhs)
@@ -26,6 +27,7 @@ Inductive pstmt : Set :=
   | PPass (n : N)
   | PIf (n : N) (t : texpr) (b o : list pstmt)
   | PWhile (n : N) (t : texpr) (b o : list pstmt)
+  | PFor (n : N) (x : N) (it : rhs) (b o : list pstmt)                           (* for x in it: b else: o -- `it` evaluates to a range *)
   | PBreak (n : N)
   | PContinue (n : N)
   | PReturn (n : N) (r : option rhs)
@@ -40,7 +42,7 @@ Inductive pstmt : Set :=
 
 Definition pid (s : pstmt) : N :=
   match s with
-  | PExpr n _ | PAssign n _ _ | PPass n | PIf n _ _ _ | PWhile n _ _ _ | PBreak n | PContinue n | PReturn n _ | PDef n _ _ _
+  | PExpr n _ | PAssign n _ _ | PPass n | PIf n _ _ _ | PWhile n _ _ _ | PFor n _ _ _ _ | PBreak n | PContinue n | PReturn n _ | PDef n _ _ _
   | PEmit _ n _ _ | PBefore n _ _ | PWhileG n _ _ _ _ _ => n
   | PGuardIf g _ _ _ => guard_node g
   | PTry _ _ | PNameTry _ _ => 0
@@ -76,6 +78,14 @@ Fixpoint of_ps (top infun : bool) (s : tree) (n : N) {struct s} : option pstmt :
             let nb := n + 1 + nsize test in
             match of_e test (n + 1), goss infun b nb, goss infun o (nb + nsizes b) with
             | Some t', Some b', Some o' => Some (if N.eqb k kIf then PIf n t' b' o' else PWhile n t' b' o') | _, _, _ => None end
+        | _, _ => None
+        end
+      else if N.eqb k kFor then
+        match sc, fs with
+        | [SNone], [[target]; [iter]; b; o] =>
+            let nb := n + 1 + nsize target + nsize iter in
+            match target_of target, of_r iter (n + 1 + nsize target), goss infun b nb, goss infun o (nb + nsizes b) with
+            | Some x, Some it, Some b', Some o' => Some (PFor n x it b' o') | _, _, _, _ => None end
         | _, _ => None
         end
       else if N.eqb k kReturn then
@@ -120,7 +130,7 @@ Definition pguard_name (g : guard) : tree := nm_load (guard_id g).
 Definition pguard_kw (g : option guard) : tree :=
   kw id_guard_kw (match g with Some g' => T kConstant [SStr (guard_id g'); SNone] [] | None => none_const end).
 Definition tracing_name (g : guard) : N := match g with GFun _ => id_fte | _ => id_te end.
-Definition before_event (g : guard) : event := match g with GFun _ => E_before_function_body | _ => E_before_while_loop_body end.
+Definition before_event (g : guard) : event := match g with GFun _ => E_before_function_body | GFBody _ => E_before_for_loop_body | _ => E_before_while_loop_body end.
 
 Fixpoint tps (s : pstmt) : tree :=
   match s with
@@ -129,6 +139,7 @@ Fixpoint tps (s : pstmt) : tree :=
   | PPass _ => T kPass [] []
   | PIf _ t b o => T kIf [] [[tt t]; map tps b; map tps o]
   | PWhile _ t b o => T kWhile [] [[tt t]; map tps b; map tps o]
+  | PFor _ x it b o => T kFor [SNone] [[nm_store x]; [tr it]; map tps b; map tps o]
   | PBreak _ => T kBreak [] []
   | PContinue _ => T kContinue [] []
   | PReturn _ None => T kReturn [] [[]]
@@ -139,7 +150,7 @@ Fixpoint tps (s : pstmt) : tree :=
       stmt_emit e n ((match r with Some v => [kw id_ret (tr v)] | None => [] end)
                      ++ (match g with Some g' => [pguard_kw g'] | None => [] end)
                      ++ (match r, g with
-                         | Some _, None => if event_eqb e E_before_function_body || event_eqb e E_before_while_loop_body then [guards_none] else []
+                         | Some _, None => if event_eqb e E_before_function_body || event_eqb e E_before_while_loop_body || event_eqb e E_before_for_loop_body then [guards_none] else []
                          | _, _ => []
                          end))
   | PBefore n tb own => T kIf [] [[emit_call E_before_stmt n []]; map tps tb; map tps own]
@@ -168,6 +179,7 @@ Fixpoint ppr (s : pstmt) : pstmt :=
   match s with
   | PIf n t b o => PIf n t (map ppr b) (map ppr o)
   | PWhile n t b o => if ge then PWhileG n (GTest n) t t (map ppr b) (map ppr o) else PWhile n t (map ppr b) (map ppr o)
+  | PFor n x it b o => PFor n x it (map ppr b) (map ppr o)
   | other => other
   end.
 
@@ -196,6 +208,18 @@ Fixpoint pis (is_module : bool) (s : pstmt) {struct s} : list pstmt :=
         else
           PWhile n t'
             ((if sub c E_before_while_loop_body then [PEmit E_before_while_loop_body n (Some (RExp (XConst 0 (SBool true)))) None] else []) ++ with_after)
+            (flat_map (pis false) o)
+    | PFor n x it b o =>
+        let it' := wrapR c E_after_for_iter (rid it) (defR c E_before_for_iter (rid it) (ir c it)) in
+        let b' := flat_map (pis false) b in
+        let with_after := if sub c E_after_for_loop_iter
+                          then [PTry b' [PEmit E_after_for_loop_iter n None (Some (if ge then Some (GFBody n) else None))]]
+                          else b' in
+        if ge then
+          PFor n x it' [PGuardIf (GFBody n) (if sub c E_before_for_loop_body then Some n else None) with_after (map ppr b)] (flat_map (pis false) o)
+        else
+          PFor n x it'
+            ((if sub c E_before_for_loop_body then [PEmit E_before_for_loop_body n (Some (RExp (XConst 0 (SBool true)))) None] else []) ++ with_after)
             (flat_map (pis false) o)
     | PReturn n (Some r) => PReturn n (Some (wrapR c E_after_return (rid r) (defR c E_before_return (rid r) (ir c r))))
     | PDef n name ps body =>
@@ -247,6 +271,7 @@ Fixpoint passigned (s : pstmt) {struct s} : list N :=
   match s with
   | PAssign _ xs _ => xs
   | PIf _ _ b o | PWhile _ _ b o | PWhileG _ _ _ _ b o => al b ++ al o
+  | PFor _ x _ b o => x :: al b ++ al o
   | PDef _ name _ _ => [name]
   | PBefore _ tb own => al tb ++ al own
   | PGuardIf _ _ i p => al i ++ al p
@@ -318,6 +343,20 @@ Fixpoint pexec_s (sc : scope) (glob : env) (s : pstmt) (r : env) (saved : val) (
                                {| p_exc := p_exc a; p_env := p_env a; p_saved := p_saved a; p_log := lt ++ p_log a |}
                       end
                   end in
+  let floop := fun (x : N) (b o : list pstmt) =>
+                 fix floop (k : nat) (i : Z) (r : env) (saved : val) (pre : list entry) {struct k} : pres :=
+                   match k with
+                   | O => exec_l o r saved pre
+                   | S k' =>
+                       let a := exec_l b (upd r x (VInt i)) saved pre in
+                       match p_exc a with
+                       | Some PBrk => {| p_exc := None; p_env := p_env a; p_saved := p_saved a; p_log := p_log a |}
+                       | None | Some PCnt =>
+                           let z := floop k' (i + 1)%Z (p_env a) (p_saved a) (pre ++ p_log a) in
+                           {| p_exc := p_exc z; p_env := p_env z; p_saved := p_saved z; p_log := p_log a ++ p_log z |}
+                       | Some _ => a
+                       end
+                   end in
   match s with
   | PExpr _ v =>
       let '(q, sv, l) := eval_r call (look sc glob r) (globs sc glob r) v saved pre in
@@ -338,6 +377,14 @@ Fixpoint pexec_s (sc : scope) (glob : env) (s : pstmt) (r : env) (saved : val) (
       end
   | PWhile _ t b o => loop (fun r _ => eval_e t (look sc glob r)) b o fuel r saved pre
   | PWhileG _ g t' t b o => loop (fun r pre => if pgon pre g then eval_e t' (look sc glob r) else eval_e t (look sc glob r)) b o fuel r saved pre
+  | PFor _ x it b o =>
+      let '(q, sv, l) := eval_r call (look sc glob r) (globs sc glob r) it saved pre in
+      match q with
+      | ROk (VRange lo hi) => let z := floop x b o (Z.to_nat (hi - lo)) lo r sv (pre ++ l) in
+                              {| p_exc := p_exc z; p_env := p_env z; p_saved := p_saved z; p_log := l ++ p_log z |}
+      | ROk _ => {| p_exc := Some (PO (FX ETypeError)); p_env := r; p_saved := sv; p_log := l |}       (* not iterable (strings are outside the instance) *)
+      | RErr e => {| p_exc := Some (PO e); p_env := r; p_saved := sv; p_log := l |}
+      end
   | PBreak _ => {| p_exc := Some PBrk; p_env := r; p_saved := saved; p_log := [] |}
   | PContinue _ => {| p_exc := Some PCnt; p_env := r; p_saved := saved; p_log := [] |}
   | PReturn _ None => {| p_exc := Some (PO (FRet VNone)); p_env := r; p_saved := saved; p_log := [] |}
@@ -468,6 +515,31 @@ Fixpoint pref_s (quiet is_module : bool) (sc : scope) (glob : env) (s : pstmt) (
                         end
                     end) fuel r pre0 in
         (pr_exc z, pr_env z, pr_log z, VNone)
+    | PFor _ x it b o =>
+        let '(q, l) := ref_r callr quiet (look sc glob r) (globs sc glob r) it (pre0 ++ say [(E_before_for_iter, rid it, None)]) in
+        let lit := say [(E_before_for_iter, rid it, None)] ++ l ++ say (emitted_r E_after_for_iter (rid it) q) in
+        match q with
+        | ROk (VRange lo hi) =>
+            let z := (fix floop (k : nat) (i : Z) (r : env) (pre : list entry) {struct k} : prres :=
+                        match k with
+                        | O => ref_l quiet o r pre
+                        | S k' =>
+                            let loud_b := negb quiet && (negb ge || pgon pre (GFBody n)) in
+                            let lb := if loud_b then [(E_before_for_loop_body, n, Some (cval (SBool true)))] else [] in
+                            let a := ref_l (negb loud_b) b (upd r x (VInt i)) (pre ++ lb) in
+                            let la := if loud_b then [(E_after_for_loop_iter, n, Some VNone)] else [] in
+                            match pr_exc a with
+                            | Some PBrk => {| pr_exc := None; pr_env := pr_env a; pr_log := lb ++ pr_log a ++ la |}
+                            | None | Some PCnt =>
+                                let z := floop k' (i + 1)%Z (pr_env a) (pre ++ lb ++ pr_log a ++ la) in
+                                {| pr_exc := pr_exc z; pr_env := pr_env z; pr_log := lb ++ pr_log a ++ la ++ pr_log z |}
+                            | Some _ => {| pr_exc := pr_exc a; pr_env := pr_env a; pr_log := lb ++ pr_log a ++ la |}
+                            end
+                        end) (Z.to_nat (hi - lo)) lo r (pre0 ++ lit) in
+            (pr_exc z, pr_env z, lit ++ pr_log z, VNone)
+        | ROk _ => (Some (PO (FX ETypeError)), r, lit, VNone)
+        | RErr e => (Some (PO e), r, lit, VNone)
+        end
     | PReturn _ None => (Some (PO (FRet VNone)), r, [], VNone)
     | PReturn _ (Some v) =>
         let '(q, l) := ref_r callr quiet (look sc glob r) (globs sc glob r) v (pre0 ++ say [(E_before_return, rid v, None)]) in
